@@ -142,29 +142,29 @@ deriving Repr
 /-- one record of `WALBatch.replay`; `none` = keep going, `some r` = stop with that result -/
 def replayOne (r : WalRec) (s : Store) : Store × Option String × Bool :=
   -- returns (store, error message if the replay aborts with an error, aborted-silently flag)
-  let s := { s with hdr := { s.hdr with nextLSN := r.lsn } }
+  let s := { s with hdr := { s.hdr with nextLSN := max s.hdr.nextLSN r.lsn } }
   match fetch r.page s with
   | .ok node s1 =>
     if r.lsn ≤ nodeLSN node then (s1, none, false)
     else if r.op == c_OpInsert then
       match insertKey ⟨nodeOff node⟩ r.cell r.lsn r.val s1 with
-      | .ok _ s2 => ({ s2 with hdr := { s2.hdr with lastKey := s2.hdr.lastKey + 1 } }, none, false)
-      | .err .keyExists s2 => ({ s2 with hdr := { s2.hdr with lastKey := s2.hdr.lastKey + 1 } }, none, false)
+      | .ok _ s2 => ({ s2 with hdr := { s2.hdr with lastKey := max s2.hdr.lastKey r.cell } }, none, false)
+      | .err .keyExists s2 => ({ s2 with hdr := { s2.hdr with lastKey := max s2.hdr.lastKey r.cell } }, none, false)
       | .err _ s2 => (s2, some "replay insert", false)
       | .panic p => (s1, some ("panic:" ++ p), false)
       | .unmodelled w => (s1, some ("unmodelled:" ++ w), false)
       | .fuel => (s1, some "hang", false)
     else if r.op == c_OpUpdate then
-      match decodeTuple pageTableSchema r.val [] with
-      | .error _ => (s1, some "replay update: decode", false)
-      | .ok _ =>
-        match node with
-        | .internal _ => (s1, some "panic:updateCell on internal node", false)
-        | .leaf l =>
-          if r.val.length > c_maxValueSize || !(l.cells.any fun c => c.key == r.cell) then (s1, none, true)
-          else
-            let l' : Leaf := { l with cells := l.cells.map (fun c => if c.key == r.cell then { c with val := r.val } else c), lsn := r.lsn }
-            ({ s1 with mem := assocSet s1.mem l.off ⟨.leaf l', true⟩ }, none, false)
+      match node with
+      | .internal n =>
+        -- `updateCell` on an internal node: the key lookup runs over the separators; a hit indexes the (empty) leaf cells
+        if r.val.length > c_maxValueSize || !(n.cells.any fun c => c.key == r.cell) then (s1, none, true)
+        else (s1, some "panic:updateCell on internal node", false)
+      | .leaf l =>
+        if r.val.length > c_maxValueSize || !(l.cells.any fun c => c.key == r.cell) then (s1, none, true)
+        else
+          let l' : Leaf := { l with cells := l.cells.map (fun c => if c.key == r.cell then { c with val := r.val } else c), lsn := r.lsn }
+          ({ s1 with mem := assocSet s1.mem l.off ⟨.leaf l', true⟩ }, none, false)
     else
       match node with
       | .internal _ => (s1, some "panic:delete on internal node", false)
